@@ -332,6 +332,16 @@ def _catalog():
     add("permutations+arr", "filter.permutations", "x", lambda x: [list(p) for p in F.permutations(x)])
     add("haralick.cooccurrence+q", "haralick.cooccurrence", "BL", lambda b, l: Hk.cooccurrence(b, l, 1, 1))
     add("kalman_filter+arrays", "filter.kalman_filter", "nmQR", _kalman2)
+    # shared KalmanState objects: every pattern of old_indices (identity / all retained but permuted / one
+    # dropped + one new / all new) for the static, velocity and reverse-velocity model
+    for orole, mname in (("E", "static"), ("F", "velocity"), ("O", "reverse")):
+        for irole, pname in (("n", "identity"), ("l", "permuted"), ("C", "partial"), ("Z", "allnew")):
+            add("kalman:%s:%s" % (mname, pname), "filter.kalman_filter", orole + irole + "m", _kalman_obj)
+        add("kalman:%s:deep_copy" % mname, "filter.KalmanState.deep_copy", orole, lambda st: _kstate(st.deep_copy()))
+        add("kalman:%s:predicted" % mname, "filter.KalmanState.predicted_obs_vec", orole,
+            lambda st: [st.predicted_state_vec, st.predicted_obs_vec, st.state_len, st.obs_len])
+    for hn in "H1 H2 H3 H4 H5 H6 H7 H8 H9 H10 H11 H12 H13 all".split():
+        add("haralick-object." + hn, "haralick.Haralick." + hn, "Y", lambda h, hn=hn: getattr(h, hn)())
     add("inverse_log_transform", "threshold.inverse_log_transform", "I", lambda a: T.inverse_log_transform(*T.log_transform(a)))
     add("get_adaptive_threshold", "threshold.get_adaptive_threshold", "IM",
         lambda a, m: T.get_adaptive_threshold(T.TM_OTSU, a, 0.5, mask=m, adaptive_window_size=4))
@@ -485,6 +495,19 @@ def _kalman2(old, coords, q, r):
     k2 = k.deep_copy()
     return [k.state_vec, k.state_cov, k.noise_var, k.state_noise, k.state_noise_idx, k2.predicted_obs_vec,
             k.state_len, k.obs_len]
+
+
+def _kstate(k):
+    return [k.state_vec, k.state_cov, k.noise_var, k.state_noise, k.state_noise_idx, k.translation_matrix,
+            k.observation_matrix]
+
+
+def _kalman_obj(st, old, coords):
+    import centrosome.filter as F
+    n = len(old)
+    q = np.tile(np.eye(st.state_len) * 0.5, (n, 1, 1))
+    r = np.tile(np.eye(st.obs_len) * 0.25, (n, 1, 1))
+    return _kstate(F.kalman_filter(st, old, coords, q, r))
 
 
 def _lapjv(a):
@@ -764,6 +787,9 @@ SMALL = {
     "g": (lambda: np.array([9, 2, 1, 3]), ["int64", "int32", "int64"]),
     "y": (lambda: np.array([4, 7, 9, 8]), ["int64", "int32", "int64"]),
     "n": (lambda: np.array([0, 1, 2]), ["int64", "int32", "int64"]),                            # kalman old indices
+    "l": (lambda: np.array([2, 0, 1]), ["int64", "int32", "int64"]),                            # ... all retained, permuted
+    "C": (lambda: np.array([1, -1, 0]), ["int64", "int32", "int64"]),                           # ... one dropped, one new
+    "Z": (lambda: np.array([-1, -1, -1]), ["int64", "int32", "int64"]),                         # ... all new
     "m": (lambda: np.array([[1.0, 2.0], [5.0, 4.5], [8.0, 1.5]]), _FLTS),                       # kalman coordinates
     "Q": (lambda: np.tile(np.eye(2) * 0.5, (3, 1, 1)), ["float64"]),
     "R": (lambda: np.tile(np.eye(2) * 0.25, (3, 1, 1)), ["float64"]),
@@ -788,6 +814,28 @@ for _r, (_g, _d) in SMALL.items():
     ROLE_DTYPES[_r] = _d
 
 ROLES = "IBMLpqr" + "".join(sorted(SMALL))
+
+# arguments that are OBJECTS holding arrays: built once per history (by the library's own constructors, the same
+# way in the history process and in every fresh-interpreter reference), shared by the calls of the history,
+# snapshotted deeply (every ndarray reachable through attributes / lists / tuples / dicts) before and compared
+# after every call
+OBJECT_ROLES = "EFOY"      # KalmanState of the static / velocity / reverse-velocity model with 3 features; Haralick
+
+
+def _build_object(role, case, si):
+    import centrosome.filter as F
+    if role in "EFO":
+        model = {"E": F.static_kalman_model, "F": F.velocity_kalman_model, "O": F.reverse_velocity_kalman_model}[role]()
+        pts = np.array([[1.0, 2.0], [5.0, 4.5], [8.0, 1.5]]) + si
+        q = np.tile(np.eye(model.state_len) * 0.5, (3, 1, 1))
+        r = np.tile(np.eye(model.obs_len) * 0.25, (3, 1, 1))
+        st = F.kalman_filter(model, -np.ones(3, int), pts, q, r)
+        return F.kalman_filter(st, np.arange(3), pts + 0.75, q, r)
+    import centrosome.haralick as Hk
+    shape = case["shapes"][si]
+    img = _content("I", shape, np.random.RandomState(case["seed"] % 1000 + si), "smooth")
+    lab = _content("L", shape, np.random.RandomState(case["seed"] % 1000 + 7 + si))
+    return Hk.Haralick(img, lab, 1, 0)
 
 
 # value classes of intensity images: they steer the internal branches of the functions (clamping of pixels
@@ -912,6 +960,13 @@ def build_pool(case, writable=False, only_keys=None):
             if writable and lay == "ro":
                 lay = "C"
             pool[key], bases[key] = _layout(a, lay)
+        for role in OBJECT_ROLES:
+            key = "%s%d" % (role, si)
+            if only_keys is not None and key not in only_keys:
+                continue
+            if only_keys is None and "used" in case and key not in case["used"]:
+                continue                                  # objects are built only for the histories that use them
+            pool[key], bases[key] = _build_object(role, case, si), None
     return pool, bases
 
 
@@ -920,9 +975,41 @@ def _meta(a):
             bool(a.flags.f_contiguous), bool(a.flags.owndata)]
 
 
+def _deep(v, path, out, seen, depth=0):
+    """every ndarray (bytes + shape/strides/dtype/flags) and scalar reachable from an object"""
+    if isinstance(v, np.ndarray):
+        out[path] = (v.tobytes() if v.dtype != object else digest(v), _meta(v))
+    elif isinstance(v, (bool, int, float, complex, str, bytes, type(None), np.generic)):
+        out[path] = repr(v)
+    elif depth > 6 or id(v) in seen:
+        return
+    elif isinstance(v, (list, tuple)):
+        seen.add(id(v))
+        out[path + "#len"] = len(v)
+        for i, x in enumerate(v):
+            _deep(x, "%s[%d]" % (path, i), out, seen, depth + 1)
+    elif isinstance(v, dict):
+        seen.add(id(v))
+        out[path + "#len"] = len(v)
+        for k in sorted(v, key=repr):
+            _deep(v[k], "%s[%r]" % (path, k), out, seen, depth + 1)
+    elif hasattr(v, "__dict__"):
+        seen.add(id(v))
+        for k, x in sorted(vars(v).items()):
+            if not callable(x):
+                _deep(x, "%s.%s" % (path, k), out, seen, depth + 1)
+    else:
+        out[path] = repr(v)[:80]
+
+
 def _snap(pool, bases):
     s = {}
     for k, a in pool.items():
+        if not isinstance(a, np.ndarray):
+            d = {}
+            _deep(a, k, d, set())
+            s[k] = d
+            continue
         s[k] = (a.tobytes(), _meta(a), id(a.base) if a.base is not None else None,
                 bases[k].tobytes() if bases[k] is not None else None)
     return s
@@ -931,6 +1018,25 @@ def _snap(pool, bases):
 def _input_diff(pool, bases, snap):
     out = []
     for k, a in pool.items():
+        if not isinstance(a, np.ndarray):
+            d1 = {}
+            _deep(a, k, d1, set())
+            d0 = snap[k]
+            # an attribute that APPEARS (a value the object caches lazily, e.g. KalmanState.obs_vec) leaves every
+            # array the caller handed in untouched: not a modification; results are still compared with the
+            # fresh interpreter.  Existing arrays / values that change or vanish are.
+            ch = sorted(p for p in set(d0) | set(d1) if d0.get(p) != d1.get(p) and p in d0)
+            if ch:
+                what = []
+                for p in ch[:5]:
+                    x, y = d0.get(p), d1.get(p)
+                    if isinstance(x, tuple) and isinstance(y, tuple):
+                        what.append("%s %s" % (p, "contents changed" if x[1] == y[1] else
+                                               "shape/strides/dtype/flags %s -> %s" % (x[1][:3], y[1][:3])))
+                    else:
+                        what.append("%s %s" % (p, "appeared" if x is None else "vanished" if y is None else "changed"))
+                out.append("%s (%s object): %s" % (k, type(a).__name__, "; ".join(what)))
+            continue
         b0, m0, base0, big0 = snap[k]
         m1 = _meta(a)
         if m1 != m0:
@@ -1279,7 +1385,7 @@ def impl(case):
     twin = []
     for k, (key, si) in enumerate(case["calls"]):
         used = ["%s%d" % (r, si) for r in cat[key][2]]
-        if any(case["lay"][u] in ("F", "view") for u in used):
+        if any(case["lay"].get(u) in ("F", "view") for u in used):
             twin.append(k)
     jobs = [lambda: _run_history(case)]
     for k in range(n):
@@ -1463,6 +1569,28 @@ def generate(ctx):
                 continue
             cases.append(_mk_case(ctx, rng, cat, calls=[[a, 0], [b, 1], [a, 1], [b, 0], [a, 2], [b, 2], [a, 0]]))
             ctx.count("stateful_pairs")
+    # histories that re-use ONE object argument (KalmanState, Haralick) across their calls: the same call
+    # twice, one state fed to different successor calls, model constructors in between
+    ctors = [c[0] for c in cat if c[1] in ("filter.static_kalman_model", "filter.velocity_kalman_model",
+                                             "filter.reverse_velocity_kalman_model")]
+    for orole in OBJECT_ROLES:
+        okeys = [c[0] for c in cat if orole in c[2]]
+        if not okeys:
+            continue
+        for rep_ in range(ctx.n(5, 60)):
+            si = _pick_set(rng, 3)
+            n = int(rng.randint(3, 8))
+            calls = []
+            while len(calls) < n:
+                u = rng.rand()
+                if calls and u < 0.35:
+                    calls.append(list(calls[int(rng.randint(len(calls)))]))      # the identical call again
+                elif u < 0.5 and ctors and orole != "Y":
+                    calls.append([str(rng.choice(ctors)), si])
+                else:
+                    calls.append([str(rng.choice(okeys)), si])
+            cases.append(_mk_case(ctx, rng, cat, calls=calls))
+            ctx.count("object_histories")
     for _ in range(ctx.n(120, 2000)):
         cases.append(_mk_case(ctx, rng, cat))
         ctx.count("random")
@@ -1571,7 +1699,7 @@ def _candidate_cases(ctx, rng, cat, side):
                                 c["vc"][k0] = vcl
                             else:
                                 c["vc"][k0] = vcl
-                        if (r in cand_roles or (not cand_roles and r in "IBL")) and n_round == 1:
+                        if (r in cand_roles or (not cand_roles and r in "IBL")) and n_round == 1 and r in ROLE_DTYPES:
                             c["dt"][k0] = ROLE_DTYPES[r][0] if r not in "IBL" else \
                                 {"I": "float64", "B": "bool", "L": "int32"}[r]
                     cases.append(c)
